@@ -17,13 +17,23 @@
 bool
 Ftp::ParseIpPort(const char *buf, const char *forceIp, Ip::Address &addr)
 {
-    int h1, h2, h3, h4;
-    int p1, p2;
-    const int n = sscanf(buf, "%d,%d,%d,%d,%d,%d",
-                         &h1, &h2, &h3, &h4, &p1, &p2);
-
-    if (n != 6 || p1 < 0 || p2 < 0 || p1 > 255 || p2 > 255)
-        return false;
+    // six comma-separated decimal numbers, each 0..255; strtol() saturates
+    // (instead of wrapping like sscanf("%d")) when a number is too long
+    long v[6];
+    const char *s = buf;
+    for (int i = 0; i < 6; ++i) {
+        char *e = nullptr;
+        v[i] = strtol(s, &e, 10);
+        if (e == s || v[i] < 0 || v[i] > 255)
+            return false;
+        if (i < 5) {
+            if (*e != ',')
+                return false;
+            s = e + 1;
+        }
+    }
+    const int h1 = v[0], h2 = v[1], h3 = v[2], h4 = v[3];
+    const int p1 = v[4], p2 = v[5];
 
     if (forceIp) {
         addr = forceIp; // but the above code still validates the IP we got
@@ -55,7 +65,7 @@ Ftp::ParseProtoIpPort(const char *buf, Ip::Address &addr)
     const char delim = *buf;
     const char *s = buf + 1;
     const char *e = s;
-    const int proto = strtol(s, const_cast<char**>(&e), 10);
+    const auto proto = strtol(s, const_cast<char**>(&e), 10); // long: do not narrow before the range check
     if ((proto != 1 && proto != 2) || *e != delim)
         return false;
 
@@ -78,8 +88,8 @@ Ftp::ParseProtoIpPort(const char *buf, Ip::Address &addr)
         return false;
 
     s = e + 1; // skip port delimiter
-    const int port = strtol(s, const_cast<char**>(&e), 10);
-    if (port < 0 || *e != '|')
+    const auto port = strtol(s, const_cast<char**>(&e), 10); // long: do not narrow before the range check
+    if (e == s || port < 1 || port > 65535 || *e != '|')
         return false;
 
     if (Config.Ftp.sanitycheck && port < 1024)
